@@ -1,3 +1,4 @@
 from propcfg.tmplcommon import *
 
-CFG = TMPL_C01
+CFG = dict(TMPL_C01)
+CFG["proof_modules"] = ["SafeHtml.Proofs.HtmlTokSim"]
